@@ -76,6 +76,16 @@ InvPathMergeDenote ==
     /\ NormEq(PathMerge(FV(ts), acc), PathMerge(Simplify(FV(ts)), acc), acc)
     /\ NormEq(PathMerge(DV(ts), acc), PathMerge(Simplify(DV(ts)), acc), acc)
 
+(* C08 at design level: a merge <<newBase, oldBase, old>> of merged (stable) *)
+(* trees obeys the two rebase laws                                          *)
+Stable(t, acc) == Len(t) = 1 \/ (Simplify(t) = t /\ RefMergeTrees(t, acc) = t)
+InvRebaseLaws ==
+  Len(mm) = 3 =>
+    \A acc \in Accepts :
+      ((\A i \in 1..3 : Stable(mm[i], acc)) /\ ~FileTermsCancelLeavingTrees(Inputs, acc)) =>
+        RebaseLawsVerdict(RefPathValue(mm[3], acc), RefPathValue(mm[2], acc), RefPathValue(mm[1], acc),
+                          RefPathValue(RefMerge(mm, acc), acc), acc) = "ok"
+
 EmitInv ==
   (Emit /\ Len(mm) >= EmitMin) => PrintT(<<"REPLAY", ToJson([mm |-> mm])>>)
 =============================================================================
